@@ -24,13 +24,17 @@ theorem Ext.refl (e : EP) : Ext e e := ⟨Nat.le_refl _, fun _ _ => Nat.le_refl 
 theorem Ext.trans {a b c : EP} (h1 : Ext a b) (h2 : Ext b c) : Ext a c :=
   ⟨Nat.le_trans h1.1 h2.1, fun u hu => Nat.le_trans (h2.2 u (Nat.lt_of_lt_of_le hu h1.1)) (h1.2 u hu)⟩
 
-theorem make_next (e : EP) (s : Spec) : (make e s).1.next = e.next + 1 := rfl
+theorem make_next (e : EP) (s : Spec) : (make e s).1.next = e.next + 1 := by
+  unfold make; split <;> rfl
 
 theorem ext_make (e : EP) (s : Spec) : Ext e (make e s).1 := by
   refine ⟨by rw [make_next]; omega, fun u hu => ?_⟩
-  have := place_live { uid := e.next, spec := s } e.slots 0 u
-  simp only [make]
-  rw [this, ind_ne _ _ (by simp; omega)]; omega
+  by_cases hc : e.closed = true
+  · simp only [make, hc, if_true]; exact Nat.le_refl _
+  · have hc' : e.closed = false := by simpa using hc
+    have := place_live { uid := e.next, spec := s } e.slots 0 u
+    simp only [make, hc', Bool.false_eq_true, if_false]
+    rw [this, ind_ne _ _ (by simp; omega)]; omega
 
 theorem ext_remove (e : EP) (id : Nat) : Ext e (remove e id).1 := by
   simp only [remove]
@@ -259,7 +263,7 @@ theorem step_subs (w : W) (a : Client.Action) :
     simp only [Client.step, subscribe] at hs' ⊢
     rcases List.mem_append.mp hs' with h | h
     · exact Or.inl ⟨s', h, rfl⟩
-    · simp at h; subst h; exact Or.inr ⟨rfl, rfl⟩
+    · simp at h; subst h; exact Or.inr ⟨rfl, make_next _ _⟩
   | onDisconnect => exact Or.inl ⟨s', hs', rfl⟩
   | settle =>
     simp only [Client.step, settle, List.mem_map] at hs'
@@ -287,7 +291,7 @@ theorem step_cbs (w : W) (a : Client.Action) :
     simp only [Client.step, onDisconnect] at hu ⊢
     rcases List.mem_append.mp hu with h | h
     · exact Or.inl h
-    · simp at h; subst h; exact Or.inr ⟨rfl, rfl⟩
+    · simp at h; subst h; exact Or.inr ⟨rfl, make_next _ _⟩
   | settle => exact Or.inl hu
 
 theorem step_dead (w : W) (a : Client.Action) (h : w.readDead = true → w.closed = true) :
